@@ -2,7 +2,7 @@ D = "internal/dnsserver/"
 
 CHECK = dict(
     level="exploration",
-    level_text="Generated-input search against explicit reference models. Bounded-exhaustive only for ratelimit.RequestCounter: every gap sequence of length 7 (quick) / 8 (thorough) over {0, 1 ns, ivl/2, ivl-1 ns, ivl, ivl+1 ns} for limits 0..3, three first-timestamp bases, ivl = 1 s (shorter sequences for 1 ns, 1 ms, 10 s), every prefix judged against a sliding-window log. Everything else is rapid-generated: Backoff histories with time frozen (exact per-subnet counter model + replay of one subnet's projection on a fresh limiter), Backoff histories with the harness owning the clock (all stored instants rewound between events; thorough also with real sleeps) judged by the set of per-subnet states the statement allows, evaluated with interval arithmetic over measured call instants, a configuration-plumbing part (a generated `ratelimit:` YAML section with every setting different from its neighbours, parsed, validated and converted by package cmd's own code, the dynamic allowlist fed through the real consul and backendpb refreshers from loopback stand-ins, judged in real time by the same reference parameterised by the YAML values; shadow references with one pair of settings swapped measure that the history told them apart), and decision tables / histories through ratelimit.Middleware and dnssvc's ratelimitmw with scripted and real limiters (global Backoff, agd.DefaultRatelimiter profiles). Held on N cases is evidence, not proof.",
+    level_text="Generated-input search against explicit reference models. Bounded-exhaustive only for ratelimit.RequestCounter: every gap sequence of length 7 (quick) / 8 (thorough) over {0, 1 ns, ivl/2, ivl-1 ns, ivl, ivl+1 ns} for limits 0..3, three first-timestamp bases, ivl = 1 s (shorter sequences for 1 ns, 1 ms, 10 s), every prefix judged against a sliding-window log. Everything else is rapid-generated: Backoff histories with time frozen (exact per-subnet counter model + replay of one subnet's projection on a fresh limiter), Backoff histories with the harness owning the clock (all stored instants rewound between events; thorough also with real sleeps) judged by the set of per-subnet states the statement allows, evaluated with interval arithmetic over measured call instants, a configuration-plumbing part (a generated `ratelimit:` YAML section with every setting different from its neighbours, parsed and validated by package cmd's own code and built by the real builder.initRateLimiter with the allowlist source (consul or backend) on loopback stand-ins, followed by a second successful and/or a failing refresh, judged in real time by the same reference parameterised by the YAML values; shadow references with one pair of settings swapped measure that the history told them apart), and decision tables / histories through ratelimit.Middleware and dnssvc's ratelimitmw with scripted and real limiters (global Backoff, agd.DefaultRatelimiter profiles). Held on N cases is evidence, not proof.",
     level_note="Backoff and agd.DefaultRatelimiter read the wall clock themselves; sliding of the window inside Backoff is reached by rewinding ring timestamps and go-cache expirations (trusted to be equivalent to the passage of time; the thorough real-sleep variant samples the same histories without that assumption). Exact interval boundaries (diff == ivl) are decided only at RequestCounter level, where the time is an argument. Where the statement does not fix an instant the reference accepts both outcomes: (1) over-limit hits are counted together only within backoff_period (documentation and statement) - the code counts them for backoff_duration after the first hit, which is recorded as finding backoff-hits-counted-over-duration and recognised precisely by a second reference with that reading; whether all hits are forgotten at once when the first is older than min(period, duration) or slide out one by one, and whether backoff ends backoff_duration after the first hit or after the count was reached, are left open; queries dropped by backoff are not countable events; (2) once a subnet's window object is older than backoff_period the code forgets the window, so up to `limit` queries pass although the limit was reached within the interval - accepted, but measured as class window-forgotten-after-period; (3) a profile's own limit replaces the whole global limiter including ANY refusal and allowlist - accepted, measured as class any-served-under-profile-own-limit.",
     technique="property-based testing (rapid) + bounded-exhaustive enumeration: event sequences vs a sliding-window log, per-subnet reference models of Backoff (exact in frozen time, allowed-state sets with interval arithmetic when time moves), decision tables for the two middlewares",
     assumptions=[
@@ -10,7 +10,8 @@ CHECK = dict(
         "rewinding every stored instant of a Backoff (ring timestamps, cache expirations) by d is equivalent to d of time passing; the bookkeeping error of the rewind is measured and added as slack to every comparison",
         "callers respect the configuration preconditions: counts, key lengths, intervals, backoff count and size estimate are positive; the limiter gets unmapped, valid client addresses (netutil.NetAddrToAddrPort)",
         "schedules of the two concurrent parts (run under the race detector) are sampled, not owned; only per-client verdicts of clients that own their subnet/profile are judged exactly, the shared subnet only by a lower bound",
-        "the plumbing part repeats the three lines of builder.initRateLimiter that create the allowlist and the limiter (the method itself needs the whole builder and starts a refresh worker); the ANY switch is written with the documented key `refuseany`",
+        "the plumbing part calls the real builder.initRateLimiter on a builder that holds only what that method reads (configuration section, environment URLs of the loopback stand-ins, loggers, a fresh prometheus registry); the refresh worker it starts ticks once an hour and stays idle; the ANY switch is written with the documented key `refuseany`",
+        "a client address in IPv4-mapped form given to Backoff directly (the middlewares unmap it first) may be treated as the IPv6 address it is or as the IPv4 client it stands for, consistently; through the middlewares it is the IPv4 client",
         "a ratelimitmw case with real agd.DefaultRatelimiter profiles (fixed 1 s window) is judged only if it finished within 0.8 s of real time, otherwise discarded unjudged",
     ],
     units=[
